@@ -205,7 +205,7 @@ def main(argv):
             "wall_s": round(time.time() - t0, 2),
             "violations": len(vio_lines),
         }
-        if not only:
+        if not only and not os.environ.get("VERIF_NO_EVIDENCE"):
             edir = os.path.join(core.verif_root(), "evidence")
             os.makedirs(edir, exist_ok=True)
             with open(os.path.join(edir, pid + ".json"), "w") as f:
